@@ -91,6 +91,8 @@ def unit_long_rows(a):
                 yield {"sub": "row", "row": "| " + u * n + " |", "doc": n <= 300}
                 yield {"sub": "row", "row": "|" + u * n + "|" + u * (n // 2) + " | z |", "doc": False}
             yield {"sub": "row", "row": "|" + "".join(units[i % len(units)] for i in range(n)) + "|", "doc": n <= 300}
+            for pad in ("\xa0", "\u3000", "\u2003 ", "\x85", "\x1f", " \t"):
+                yield {"sub": "row", "row": "|" + pad + "c" * n + pad + "|" + pad + "d\\x" * (n // 4) + pad + "|", "doc": n in (255, 1000, 1500)}
             yield {"sub": "row", "row": "|" + " c%d |" * n % tuple(range(n)) if n < 500 else "|" + " c |" * n, "doc": False}
     sweep(stats, gen(), check_row)
     return stats
